@@ -46,6 +46,10 @@ class Domain:
         """False when the rule knows the loop body runs at least once (e.g. range(num_dof), num_dof >= 1)."""
         return True
 
+    def enter_while(self, node, state):
+        """States entering the body of a `while` (iterable); path-recording domains bound the number of rounds here."""
+        return (state,)
+
     def handler_enter(self, handler, state):
         """States on entry to an `except` handler (iterable); domains that record paths mark the entry."""
         return (state,)
@@ -232,7 +236,9 @@ class Flow:
             seen_head |= new
             if is_while:
                 new_e = self._effects(st.test, new)
-                enter = split_cond(dom, st.test, True, new_e)
+                enter = set()
+                for s_ in split_cond(dom, st.test, True, new_e):
+                    enter.update(dom.enter_while(st, s_))
                 leave = split_cond(dom, st.test, False, new_e)
                 if iters == 1:
                     leave = {s for s in leave if dom.while_may_skip(st, s)}
